@@ -592,7 +592,7 @@ pub fn finalize(m: &mut Merged, tier: Tier) {
 
 impl Monitor for C12 {
     fn total_cases(&self) -> u64 {
-        self.tier.pick(40_000, 1_000_000)
+        self.tier.pick(120_000, 2_000_000)
     }
     fn run_case(&mut self, k: u64, rng: &mut Rng, col: &mut Collector) {
         self.case(k, rng, col);
